@@ -32,6 +32,14 @@ WITNESS_TESTS = {
     "file": "witness/c02_detach_drops_unread_frames.rs", "props": ["C02"], "pairs_fn": ["AnonymousIngressEngine::deregister_pipe"],
     "what": "PULL reading a 3-frame message frame by frame while an unrelated PUSH peer disconnects: the remaining frames are still delivered",
   },
+  "c02_dealer_send_too_many_frames": {
+    "file": "witness/c02_dealer_send_too_many_frames.rs", "props": ["C02"], "pairs_fn": ["DealerSocket::send"],
+    "what": "DEALER handed 300 MORE frames frame by frame: refused with an error, no panic, socket usable afterwards",
+  },
+  "c11_router_takeover_then_old_detach": {
+    "file": "witness/c11_router_takeover_then_old_detach.rs", "props": ["C11"], "pairs_fn": ["RouterMap::remove_peer_by_read_pipe", "RouterMap::update_peer_identity", "RouterMap::add_peer"],
+    "what": "DEALER reconnects with the same routing id while the ROUTER still holds the old connection; after the old connection is detached the identity still routes to the live one",
+  },
   "c10_req_send_race": {
     "file": "witness/c10_req_send_race.rs", "props": ["C10"], "pairs_fn": ["ReqSocket::send"],
     "what": "8 tasks race send() on clones of one REQ socket in ReadyToSend (8 worker threads, up to 3000 rounds): exactly one succeeds per round",
@@ -117,13 +125,15 @@ ENGINE_TRUSTED = COMMON_TRUSTED + [
 ]
 
 PROPS["C02"] = {
-  "units": ["framebatch", "engine", "anon"],
+  "units": ["framebatch", "engine", "anon", "dealersend"],
   "kani_quick": [], "kani_thorough": [],
   "claim": "Receiver side, proved unbounded on the verbatim code: ZmtpEngine::process_data delivers only complete messages (MORE on all but the last frame), and delivered frames + the message in progress equal, in order, "
            "the data frames the framer returned (nothing dropped, duplicated, reordered or merged across calls); a message of more than 255 frames closes the connection with PeerError instead of panicking and nothing truncated is delivered. "
            "The real FrameBatch (push/pop/insert/remove/index/len/is_empty/demote) is proved against its Seq<Msg> view with the derived capacity preconditions (len < 255, with_capacity <= 255). "
            "Application side (PULL/SUB, unit anon): with stream = unread frames of the message in progress ++ the frames of the batches the queue hands out, recv() returns exactly the next frame of the stream, recv_multipart() the rest of a message begun frame by frame "
-           "or the next message whole, a failed call loses nothing, and a peer detaching (deregister_pipe) leaves the unread frames untouched.",
+           "or the next message whole, a failed call loses nothing, and a peer detaching (deregister_pipe) leaves the unread frames untouched. "
+           "Sender side (DEALER frame-by-frame send, unit dealersend): frames sent with MORE are buffered in order, the final frame hands on exactly the buffered frames plus itself and closes the transaction, "
+           "and every FrameBatch::push is within the container's capacity (a message with too many frames is refused with an error, never a panic).",
   "level_note": "Unit anon uses the sequential lock model for the frame cache (one task receives at a time) and an abstract ReadyPipeQueue (its pop order is a ghost sequence; cancel safety of pop() assumed); queued batches are assumed to be whole messages "
                 "(proved for tcp/ipc by the engine contract, assumed for inproc). DEALER/ROUTER frame_recv_buffer, socket-level interleaving with other peers and the sender-side MORE normalisation loops (iter_mut().enumerate(): outside Verus) are not covered. "
                 "FrameBatch::from(Vec) / with_capacity beyond 255 panic by design of the public API: derived preconditions, see DESIGN.md findings.",
@@ -234,15 +244,19 @@ PROPS["C05"] = {
 }
 
 PROPS["C11"] = {
-  "units": ["framing", "routerrecv"],
+  "units": ["framing", "routerrecv", "routermap"],
   "kani_quick": [], "kani_thorough": [],
   "claim": "Envelope handling only, proved for every message shape (any number of frames up to the container limit, empty frames anywhere): ROUTER's automatic delimiter is inserted right after the identity and removed from exactly that slot, "
            "DEALER's is prepended and stripped, the payload frames after it are unchanged frame for frame (decode after encode restores the payload); REP's extract_routing_prefix splits at the first empty frame, loses and reorders nothing, "
            "and treats a message without delimiter as all payload. "
            "ROUTER's receive loop (RouterSocket::recv_logical_finalized, its tokio::select! desugared to a nondeterministic choice between the arms, rewrite R12): a batch reaches the application only from a pipe whose identity is finalized "
            "(so it is never labelled with a placeholder for a peer that announced an identity), every batch taken from the queue is either the one returned or parked in arrival order (never dropped), "
-           "and the finalize signal is subscribed to before the last check for releasable data (no lost wake-up window).",
-  "level_note": "The identity gate itself (pipe_finalized DashMap, held_ingress map, take_finalized_held with HashMap::keys().find()) enters as an abstract stand-in with a monotone `finalized` predicate. Not covered: RouterMap (identity <-> connection maps behind two RwLocks: identity collisions, reconnect histories), the identity gate versus racing messages, ROUTER_MANDATORY error mapping, REQ's envelope handling in req_socket.rs "
+           "and the finalize signal is subscribed to before the last check for releasable data (no lost wake-up window). "
+           "RouterMap (identity <-> connection maps, unit routermap): after add_peer / update_peer_identity the identity routes to the connection that announced it (also when the identity was already in the map: take-over), "
+           "the pipe is labelled with it, the pipe's previous label (placeholder) no longer routes, every other identity and pipe entry is untouched; detaching a pipe removes its label and its identity's route "
+           "unless another pipe has taken that identity over, in which case the route of the live connection is kept.",
+  "level_note": "The identity gate itself (pipe_finalized DashMap, held_ingress map, take_finalized_held with HashMap::keys().find()) enters as an abstract stand-in with a monotone `finalized` predicate. RouterMap is verified with the sequential lock model (its mutations come from the socket core's event loop; remove_peer_by_read_pipe takes its two locks one after the other); "
+                "HashMap<Blob, _> uses vstd's HashMap specification with the ASSUMED key model for Blob (derived Eq/Hash over its bytes). Not covered: RouterMap::remove_peer_by_identity (HashMap iteration), the identity gate versus racing messages, ROUTER_MANDATORY error mapping, REQ's envelope handling in req_socket.rs "
                 "(inside async code with tokio::select!). Encode requires the batch to have room for one more frame (derived precondition len < 255).",
   "technique": "contract-based deductive verification (Verus; FrameBatch as Seq<Msg> view, proved for the real FrameBatch in unit framebatch)",
   "trusted_base": COMMON_TRUSTED + ["prelude/framebatch.rs: FrameBatch as Seq<Msg> (proved for the real FrameBatch in unit framebatch)"],
@@ -284,14 +298,16 @@ PROPS["C10"] = {
 }
 
 PROPS["C09"] = {
-  "units": ["reqrep"],
+  "units": ["reqrep", "dealersend"],
   "kani_quick": [], "kani_thorough": [],
   "claim": "Protocol-state part for REQ and REP only, proved on the verbatim async functions: a future can be dropped only where it returned Pending, i.e. at an await; "
            "before EVERY await of ReqSocket::send / recv_multipart and RepSocket::recv / recv_multipart (the assertion is inserted mechanically at each `.await` of the extracted text) no write to the protocol state has happened yet, "
            "so dropping the call at any point leaves the lock-step state exactly as the call found it (the socket is not stuck: the next valid call is accepted), and the turn locks introduced by the C10 repairs are RAII guards released on drop. "
-           "REP send_multipart takes the pending request in one critical section before its only await, so a dropped reply leaves the socket in ReadyToReceive (a valid resting state), never in between.",
+           "REP send_multipart takes the pending request in one critical section before its only await, so a dropped reply leaves the socket in ReadyToReceive (a valid resting state), never in between. "
+           "DEALER frame-by-frame send (unit dealersend): at every await of DealerSocket::send the send transaction is either exactly as the call found it or closed (Idle), never half-consumed, "
+           "so a cancelled send() cannot leave the socket waiting for a completion signal nobody will send.",
   "level_note": "Partial. Not covered: that no queued message is lost or duplicated when a recv future is dropped (ReadyPipeQueue::pop re-arms the ready list in a second await after the item was taken: whether that await can ever return Pending depends on "
-                "the ready-list capacity invariant, an interleaving property, see C08), whole-or-nothing delivery of a cancelled send (fibre channel futures), DEALER's send transaction and ROUTER's fragmented-send permit, REQ recv (tokio::select!), "
+                "the ready-list capacity invariant, an interleaving property, see C08), whole-or-nothing delivery of a cancelled send (fibre channel futures), DEALER's send_multipart waiting behind a transaction, ROUTER's fragmented-send permit, REQ recv (tokio::select!), "
                 "internal cancellation by timeouts. Drop semantics of the guards are Rust's, not modelled.",
   "technique": "contract-based deductive verification (Verus; mechanically inserted await-point assertions over the ghost write log of unit reqrep)",
   "trusted_base": PROPS["C10"]["trusted_base"],
